@@ -75,19 +75,22 @@ def dur_secs(s):
     return int(Fraction(m.group(1)) * mul)
 
 
-def tz_table(tzname, start, nsecs):
-    """UTC-offset step function [[fromSec, offsetMin], ...] of an IANA zone over the horizon,
-    computed from zoneinfo only (independent of scriptplan)."""
+def tz_table(tzname, start, nsecs, ptz=None):
+    """Offset step function [[fromSec, offsetMin], ...] of an IANA zone over the horizon: local time of the zone minus
+    project time, computed from zoneinfo only (independent of scriptplan).  Project time is the time of the zone the
+    project header names (reference semantics: every date of the text is in that zone; UTC when it names none)."""
     if not tzname:
         return [[0, 0]]
     try:
         z = zoneinfo.ZoneInfo(tzname)
+        pz = zoneinfo.ZoneInfo(ptz) if ptz and ptz not in ("UTC", "Etc/UTC") else dtz.utc
     except Exception:
         return [[0, 0]]
-    base = start.replace(tzinfo=dtz.utc)
 
     def off(t):
-        return int((base + timedelta(seconds=t)).astimezone(z).utcoffset().total_seconds() // 60)
+        naive = start + timedelta(seconds=t)
+        local = naive.replace(tzinfo=pz).astimezone(z).replace(tzinfo=None)
+        return int((local - naive).total_seconds() // 60)
 
     out = [[0, off(0)]]
     t = 0
@@ -139,6 +142,10 @@ def extract(p, sc=0):
     G = p.attributes["scheduleGranularity"]
     start = p["start"]
     decl_end = p["end"]
+    try:
+        ptz = p["timezone"] or None      # the zone the project header names
+    except Exception:
+        ptz = None
     declN = math.ceil((decl_end - start).total_seconds() / G) + 1
     p._extendProjectEndIfNeeded()
     tasks = list(p.tasks)
@@ -226,7 +233,7 @@ def extract(p, sc=0):
             L = lcm(L, e.numerator)
         R.append({"name": r.fullId, "parent": rix[r.parent.fullId] if r.parent else 0, "leaf": bool(r.leaf()),
                   "effN": e.numerator, "effD": e.denominator, "cal": cal, "hours": hours, "leaves": lv,
-                  "tz": tz_table(r.get("timezone", sc), start, N * G), "limits": limits_of(r, sc, G, rid)})
+                  "tz": tz_table(r.get("timezone", sc), start, N * G, ptz), "limits": limits_of(r, sc, G, rid)})
     for r in R:
         r["lmul"] = L // r["effN"] if L % r["effN"] == 0 else 1
     vac = [[isecs(p, v.interval.start), isecs(p, v.interval.end)] for v in p.attributes.get("vacations", [])
@@ -318,7 +325,7 @@ def merge_abstract(A_ext, gen, start):
         el = sorted((d["kind"], d["valSec"]) for d in e["limits"])
         if gl != el:
             diffs.append("res %s.limits: generated %r parsed %r" % (g["name"], gl, el))
-        r["tz"] = tz_table(g.get("tzname") or None, start, A_ext["N"] * A_ext["G"])
+        r["tz"] = tz_table(g.get("tzname") or None, start, A_ext["N"] * A_ext["G"], gen.get("ptz"))
         if r["tz"] != e["tz"]:
             diffs.append("res %s.tz differs" % g["name"])
         r["lmul"] = L // r["effN"]
